@@ -391,7 +391,18 @@ def rule_capacity(prog, res):
             for i, s in enumerate(f.blocks[b]["stmts"]):
                 if s["k"] == "assign" and s["place"]["local"] == 0 and s["rv"]["k"] == "aggregate" and s["rv"].get("vname") == "Err":
                     errs.append(b)
-        writes = [e for e in fa.mem_events() if e[0] == "call"]
+        def _touches_self(e):
+            # a call that receives a pointer into *self (the string's vector), as opposed to a scratch buffer of the function
+            try:
+                ars = fa.call_args(e[1])
+            except Exception:
+                return True
+            for a_ in ars:
+                for x_ in subterms(a_):
+                    if x_.op == "arg" and x_.args[1] == 1:
+                        return True
+            return False
+        writes = [e for e in fa.mem_events() if e[0] == "call" and _touches_self(e)]
         okerr = len(errs) == 1 and not any(f.dominates(e[1], errs[0]) or e[1] in f.reach_from(errs[0]) for e in writes)
         res.ob("X-cap", "%s | a character that does not fit is refused without touching the buffer" % path, okerr, "", f.loc)
     # 1-byte arm of ArrayString::try_push writes `ch as u8` only when len_utf8 == 1
@@ -399,12 +410,29 @@ def rule_capacity(prog, res):
     if f is not None:
         fa = FA(f, prog)
         ok = False
+        npush = 0
         for b, t in f.calls():
             if callee_of(t) == "tinyvec::ArrayVec::<A>::push":
+                npush += 1
                 a = fa.call_args(b)
                 g = [x for x in fa.guards(b) if x[0].op == "call" and x[0].args[0] == "core::char::methods::<impl char>::len_utf8" and x[1] == "eq" and x[2] == 1]
                 ok = bool(g) and a[1].op == "cast" and a[1].args[1] is g[0][0].args[1][0]
-        res.ob("X-utf8", "ArrayString::try_push | a single byte is written only for a character whose UTF-8 length is 1", ok, "", f.loc)
+        if npush == 0:
+            # no single-byte shortcut at all: every character goes through extend_from_slice(encode_utf8(ch).as_bytes()) (checked below)
+            exts = [fa.call_args(b)[1] for b, t in f.calls() if callee_of(t) == "tinyvec::ArrayVec::<A>::extend_from_slice"]
+            def _is_enc(x):
+                while x.op in ("ref", "mem", "memval"):
+                    x = x.args[0]
+                if x.op == "call" and x.args[0] == "core::str::<impl str>::as_bytes":
+                    y = x.args[1][0]
+                    while y.op in ("ref", "mem", "memval"):
+                        y = y.args[0]
+                    z = y.args[1][0] if y.op == "call" and y.args[0] == "core::char::methods::<impl char>::encode_utf8" else None
+                    return z is not None and z.op == "arg" and z.args[1] == 2
+                return False
+            ok = len(exts) == 1 and _is_enc(exts[0])
+        res.ob("X-utf8", "ArrayString::try_push | a single byte is written only for a character whose UTF-8 length is 1", ok,
+               "no single-byte write; the bytes appended are encode_utf8(ch)" if npush == 0 and ok else "", f.loc)
     # prefix loops
     loops = [("<util::Df88591String<N> as core::iter::FromIterator<char>>::from_iter", DFS + "::try_push"),
              ("<util::array_string::ArrayString<N> as core::iter::FromIterator<char>>::from_iter", AS + "::try_push"),
@@ -605,7 +633,7 @@ def rule_limits(prog, res):
     fa = FA(f, prog)
     iv = Intervals(fa, prog)
     puts = [(b, fa.call_args(b), t) for b, t in f.calls() if callee_of(t) == "df::assembler::Assembler::put"]
-    counts = [(b, a, t) for b, a, t in puts if any(x.op == "call" and ("count" in x.args[0] or x.args[0].endswith("::len")) for x in subterms(a[1]))]
+    counts = [(b, a, t) for b, a, t in puts if any((x.op == "call" and ("count" in x.args[0] or x.args[0].endswith("::len"))) or x.op == "len" for x in subterms(a[1]))]
     res.ob("X-lim", "1029 encode | two count fields (characters, bytes)", len(counts) == 2, "found %d" % len(counts), f.loc)
     # both counts and the bytes are taken from the same string: the deref of the argument
     def from_arg_string(t, blk=None, depth=0):
@@ -613,8 +641,9 @@ def rule_limits(prog, res):
             if x.op == "loc" and depth < 2 and blk is not None:
                 if from_arg_string(fa.val(x.args[1], (blk, 10 ** 6)), blk, depth + 1):
                     return True
-            if x.op == "call" and x.args[0] in ("core::str::<impl str>::chars", "core::str::<impl str>::bytes"):
-                y = x.args[1][0]
+            if (x.op == "call" and x.args[0] in ("core::str::<impl str>::chars", "core::str::<impl str>::bytes")) or x.op == "len":
+                # chars() / bytes() of, or the byte length (str::len) of ..
+                y = x.args[1][0] if x.op == "call" else x.args[0]
                 while y.op in ("ref", "mem", "memval"):
                     y = y.args[0]
                 if y.op == "call" and y.args[0].endswith("ArrayString<N> as core::ops::Deref>::deref"):
@@ -631,6 +660,14 @@ def rule_limits(prog, res):
         src = v.args[1] if v.op == "cast" else v
         si = iv.interval(src, b)
         ok = w is not None and si is not None and 0 <= si[0] and si[1] <= (1 << w) - 1
+        if not ok and v.op == "cast" and w is not None and si is not None:
+            # narrowed first (try_from / `as u8` under a <= u8::MAX test), then limited: the cast keeps the value (source within the target
+            # type) and the narrowed value is within the field
+            sc = iv.interval(v, b)
+            tb = (ty_of(v) or {}).get("bits")
+            if sc is not None and tb and 0 <= si[0] and si[1] <= (1 << tb) - 1 and 0 <= sc[0] and sc[1] <= (1 << w) - 1:
+                ok = True
+                si = sc
         what = "chars" if any(x.op == "call" and "Chars" in x.args[0] for x in subterms(v)) else "bytes"
         kinds[what] = (w, si)
         res.ob("X-lim", "1029 encode | the %s count written in %s bits cannot wrap (refused above %s)" % (what, w, (1 << w) - 1 if w else "?"), ok,
@@ -676,29 +713,57 @@ def rule_limits(prog, res):
                 if _ev is not None:
                     errs.add(_ev)
     res.ob("X-lim", "1029 encode | over-long text is refused with an error", bool(errs), str(sorted(errs)), f.loc)
-    # exactness of the refusal: an Err aggregate is returned only under a count limit test
+    # exactness of the refusal: an Err built in this function is decided by count-limit tests only (comparisons of the character / byte count
+    # with a constant); every other branch fact on its path also holds on the accepting path
     nerr = 0
     okex = True
+    why = ""
+    accept_facts = set()
+    for b_, a_, t_ in puts:
+        accept_facts |= {(g[0], g[1], g[2] if not isinstance(g[2], (list, set)) else tuple(g[2])) for g in fa.guards(b_) if g[4] == "switch"}
+
+    def _is_count(t_):
+        return any((x.op == "call" and ("count" in x.args[0] or x.args[0].endswith("::len"))) or x.op == "len" for x in subterms(t_))
     for b in sorted(f.reachable()):
         for i, s_ in enumerate(f.blocks[b]["stmts"]):
-            if s_["k"] == "assign" and s_["place"]["local"] == 0 and s_["rv"]["k"] == "aggregate" and s_["rv"].get("vname") == "Err":
+            if s_["k"] == "assign" and not s_["place"]["proj"] and s_["rv"]["k"] == "aggregate" and s_["rv"].get("vname") == "Err" \
+                    and s_["rv"].get("path") == "core::result::Result":
+                # every place where an Err(RtcmError::X) is built - directly into the return place or into the result of an inlined helper
+                if err_variant(fa.rv_term(s_["rv"], (b, i))) is None:
+                    continue          # an error handed on (from a put, or from a helper's result)
                 nerr += 1
-                # the error block's predecessors are the `>` tests on the two counts (the || lowering gives two predecessors)
-                for pb in f.pred(b):
-                    t = f.term(pb)
-                    while t["k"] == "goto":
-                        pp = f.pred(pb)
-                        if len(pp) != 1:
-                            break
-                        pb = pp[0]
-                        t = f.term(pb)
-                    if t["k"] != "switch":
-                        okex = False
+                own = [g for g in fa.guards(b) if g[4] == "switch" and (g[0], g[1], g[2] if not isinstance(g[2], (list, set)) else tuple(g[2])) not in accept_facts
+                       and g[0].op != "discr"]
+                conds = [g[0] for g in own]
+                # an Err block shared by several tests (`a > 255 || b > 127`): the test at the end of each incoming edge
+                seen_, st_ = set(), list(f.pred(b))
+                while st_:
+                    pb = st_.pop()
+                    if pb in seen_ or len(seen_) > 40:
                         continue
-                    c = fa.op_term(t["discr"], (pb, len(f.blocks[pb]["stmts"])))
-                    if not (c.op == "bin" and c.args[0] in ("Gt", "Ge", "Lt", "Le") and (is_const(c.args[2]) or is_const(c.args[1]))):
+                    seen_.add(pb)
+                    t = f.term(pb)
+                    if t["k"] == "goto":
+                        st_.extend(f.pred(pb))        # straight-line blocks (threaded helper tails): keep walking back
+                    elif t["k"] == "switch":
+                        c_ = fa.op_term(t["discr"], (pb, len(f.blocks[pb]["stmts"])))
+                        # switches on a discriminant of a value built on the spot (Option / Result plumbing of the helper) are not tests
+                        if c_.op == "discr" or (c_.op == "loc"):
+                            st_.extend(f.pred(pb))
+                        elif not any(c_ is x for x in conds):
+                            conds.append(c_)
+                    elif t["k"] == "call" and not own:
+                        # reached right after a call (count(), len()): no test in between on this edge
+                        pass
+                if not conds:
+                    okex = False
+                    why = "an Err is returned on a path the accepting path shares entirely"
+                for c in conds:
+                    cmp_ok = c.op == "bin" and c.args[0] in ("Gt", "Ge", "Lt", "Le") and ((is_const(c.args[2]) and _is_count(c.args[1])) or (is_const(c.args[1]) and _is_count(c.args[2])))
+                    if not cmp_ok:
                         okex = False
-    res.ob("X-lim", "1029 encode | the only refusal is the pair of count limits", okex and nerr == 1, "error sites: %d" % nerr, f.loc)
+                        why = "refusal decided by %s" % show(c, fa.names)[:120]
+    res.ob("X-lim", "1029 encode | the only refusal is the pair of count limits", okex and nerr >= 1, why or "error sites: %d" % nerr, f.loc)
 
 
 def rule_witness_privacy(prog, res):
